@@ -90,3 +90,407 @@ class TextWidthFilter(_HelperFilter):
 
     def measure(self, st, v):
         return TW(z3.Select(st.get_arr('f:TextWidth'), Val.oid(v)))
+
+
+# ---------------------------------------------------------------------------------------------------------------
+# handle resolution of GetMdState / GetContextStates against the BICEPS selection rules
+GS = 'sdc11073.provider.porttypes.getserviceimpl'
+CS_ = 'sdc11073.provider.porttypes.contextserviceimpl'
+
+
+def mem(seq, x):
+    """x occurs in the sequence."""
+    return z3.Contains(seq, z3.Unit(x))
+
+
+def no_duplicates():
+    """ND(s) <=> no value occurs twice in s - defined inductively over s ++ [y] (the only way the code grows lists)."""
+    nd = z3.Function('no_duplicates', SeqVal, BoolS)
+    s, y = z3.Const('s!nd', SeqVal), z3.Const('y!nd', Val)
+    axioms = [nd(z3.Empty(SeqVal)),
+              z3.ForAll([s, y], nd(z3.Concat(s, z3.Unit(y))) == z3.And(nd(s), z3.Not(mem(s, y))),
+                        patterns=[nd(z3.Concat(s, z3.Unit(y)))])]
+    return nd, axioms
+
+
+class _Tables:
+    """Abstract MDIB tables as the handlers see them: the object lists and the index lookups they call, related by the
+    table invariant of C11 (an index lookup returns exactly what a scan of the objects returns) and by BICEPS handle
+    uniqueness (C10: context-state handles are unique and distinct from descriptor handles)."""
+
+    def declare_tables(self, b, with_states=True):
+        st = b.st
+        ids = b.ex.ctx.builtin_class_ids
+        self.F_handle = st.get_arr('f:Handle')
+        self.F_dh = st.get_arr('f:DescriptorHandle')
+        self.S = z3.Const('state_objects', SeqVal)
+        self.CS = z3.Const('context_state_objects', SeqVal)
+        self.has_ch = z3.Function('ctx_handle_known', Val, BoolS)      # unique index context_states.handle
+        self.ch = z3.Function('ctx_by_handle', Val, Val)
+        self.sdh = z3.Function('states_by_descriptor_handle', Val, SeqVal)
+        self.cdh = z3.Function('ctx_by_descriptor_handle', Val, SeqVal)
+        x, y, h = z3.Const('x!t', Val), z3.Const('y!t', Val), z3.Const('h!t', Val)
+        isobj = lambda v: z3.And(Val.is_ref(v), Val.oid(v) > 0, Val.oid(v) < FRESH_BASE)   # noqa: E731
+        for seq in ((self.S, self.CS) if with_states else (self.CS,)):
+            st.assume(z3.ForAll([x], z3.Implies(mem(seq, x), isobj(x))))
+        # C11: lookups agree with a scan
+        st.assume(z3.ForAll([h], z3.Implies(self.has_ch(h), z3.And(mem(self.CS, self.ch(h)), self.hd(self.ch(h)) == h))))
+        st.assume(z3.ForAll([x], z3.Implies(mem(self.CS, x), z3.And(self.has_ch(self.hd(x)), self.ch(self.hd(x)) == x))))
+        st.assume(z3.ForAll([h, x], mem(self.cdh(h), x) == z3.And(mem(self.CS, x), self.dh(x) == h),
+                            patterns=[mem(self.cdh(h), x), z3.MultiPattern(mem(self.CS, x), self.cdh(h))]))
+        if with_states:
+            st.assume(z3.ForAll([h, x], mem(self.sdh(h), x) == z3.And(mem(self.S, x), self.dh(x) == h),
+                                patterns=[mem(self.sdh(h), x), z3.MultiPattern(mem(self.S, x), self.sdh(h))]))
+            # a state is either a context state or not
+            st.assume(z3.ForAll([x], z3.Not(z3.And(mem(self.S, x), mem(self.CS, x)))))
+        # BICEPS: a context-state handle is no descriptor handle
+        owner = z3.Or(mem(self.S, x), mem(self.CS, x)) if with_states else mem(self.CS, x)
+        st.assume(z3.ForAll([x, y], z3.Implies(z3.And(owner, mem(self.CS, y)), self.dh(x) != self.hd(y))))
+        s_list, cs_list = b.obj('states.objects'), b.obj('context_states.objects')
+        for lst, seq in ((s_list, self.S), (cs_list, self.CS)):
+            st.assume(z3.Select(st.get_arr('C'), lst.e) == ids['list'])
+            st.assume(z3.Select(st.get_arr('L'), lst.e) == seq)
+        self.s_list, self.cs_list = s_list, cs_list
+        states_tab = b.obj('states_table', objects=s_list)
+        ctx_tab = b.obj('context_states_table', objects=cs_list)
+        self.mdib = b.obj('mdib', states=states_tab, context_states=ctx_tab)
+        # the requested handle list (strings)
+        self.req = z3.Const('requested_handles', SeqVal)
+        self.req_list = b.obj('HandleRef')
+        st.assume(z3.Select(st.get_arr('C'), self.req_list.e) == ids['list'])
+        st.assume(z3.Select(st.get_arr('L'), self.req_list.e) == self.req)
+        j = z3.Int('j!req')
+        st.assume(z3.ForAll([j], z3.Implies(z3.And(0 <= j, j < z3.Length(self.req)), Val.is_str(self.req[j]))))
+        self.request = b.obj('parsed_request', HandleRef=self.req_list)
+        b.distinct(s_list, cs_list, self.req_list, states_tab, ctx_tab, self.mdib, self.request)
+
+    def hd(self, x):
+        return z3.Select(self.F_handle, Val.oid(x))
+
+    def dh(self, x):
+        return z3.Select(self.F_dh, Val.oid(x))
+
+    def selection(self, match):
+        """sel(k, x): x is selected by one of the first k requested handles (the union the BICEPS rules prescribe)."""
+        sel = z3.Function('selected_by_first', IntS, Val, BoolS)
+        k, x = z3.Int('k!sel'), z3.Const('x!sel', Val)
+        ax = [z3.ForAll([x], z3.Not(sel(0, x))),
+              z3.ForAll([k, x], z3.Implies(k >= 0, sel(k + 1, x) == z3.Or(sel(k, x), match(x, self.req[k]))),
+                        patterns=[sel(k + 1, x)])]
+        return sel, ax
+
+    def lookup_summaries(self, prefix):
+        def get_one_ctx(ex_, st, args, kwargs):
+            h = st.box(args[0])
+            allow_none = kwargs.get('allow_none')
+            miss = st.fork()
+            miss.assume(z3.Not(self.has_ch(h)))
+            st.assume(self.has_ch(h))
+            hit = (st, vany(self.ch(h)))
+            if allow_none is not None and z3.is_true(z3.simplify(truthy(allow_none, st))):
+                return [(miss, NONE), hit]
+            return [(miss, Raise(ex_.mk_exc('KeyError', 'get_one'))), hit]
+
+        def mk_get(fn, none_if_missing):
+            def get(ex_, st, args, kwargs):
+                h = st.box(args[0])
+                r = st.alloc('list')
+                st.set_list_seq(r, fn(h))
+                # a non-empty sequence has a member (its first element)
+                st.assume(z3.Implies(z3.Length(fn(h)) > 0, mem(fn(h), fn(h)[0])))
+                if len(args) < 2 and none_if_missing:
+                    # .get(key) without default: None when the key is unknown (no entry = no member, C11)
+                    e = z3.If(z3.Length(fn(h)) > 0, Val.ref(r.e), Val.none)
+                    return vany(e, maybe_none=True)
+                return r
+            return get
+        return {
+            f'{prefix}.context_states.handle.get_one':
+                Pure(get_one_ctx, name='context_states.handle.get_one: unique index lookup (C11 invariant)'),
+            f'{prefix}.states.descriptor_handle.get':
+                Pure(mk_get(self.sdh, True), name='states.descriptor_handle.get: index lookup == scan (C11 invariant)'),
+            f'{prefix}.context_states.descriptor_handle.get':
+                Pure(mk_get(self.cdh, True), name='context_states.descriptor_handle.get: index lookup == scan (C11 invariant)'),
+        }
+
+
+@register
+class GetMdStateSelection(FnCheck, _Tables):
+    id = 'C20.get_md_state_selection'
+    prop = 'C20'
+    target = f'{GS}:GetService._on_get_md_state'
+    doc = ('GetMdState: the states put into the response are exactly those selected by the requested handle list - '
+           'empty list: all states (plus all context states when the device includes them); otherwise the union over '
+           'the requested handles of {context state with that handle} and {states whose descriptor has that handle}; '
+           'unknown handles contribute nothing; every state occurs at most once (also for repeated / overlapping handles)')
+    trusted = ('table lookups return what a scan returns (C11) - assumed as callee contracts here',
+               'no_duplicates is defined inductively over append')
+    feasibility_timeout_ms = 400
+    feasibility_ematch_only = True
+
+    def setup(self, b):
+        st = b.st
+        self.declare_tables(b)
+        self.ctx_in = b.bool('contextstates_in_getmdib')
+        dev = b.obj('sdc_device', contextstates_in_getmdib=self.ctx_in)
+        slf = b.obj('self', cls=(GS, 'GetService'), _mdib=self.mdib, _sdc_device=dev)
+        b.distinct(slf, dev, self.mdib)
+
+        def match(x, h):
+            in_s = z3.And(mem(self.S, x), self.dh(x) == h)
+            in_cs = z3.And(mem(self.CS, x), z3.Or(self.hd(x) == h, self.dh(x) == h))
+            return z3.If(self.ctx_in.e, z3.Or(in_s, in_cs), in_s)
+        self.match = match
+        self.sel, ax = self.selection(match)
+        self.nd, ax2 = no_duplicates()
+        for a in ax + ax2:
+            st.assume(a)
+        return slf, [b.obj('request_data')], {}
+
+    def callees(self, ex):
+        def from_node(ex_, st, args, kwargs):
+            return self.request
+
+        def response(ex_, st, args, kwargs):
+            r = st.alloc('GetMdStateResponse')
+            md = st.alloc('MdState')
+            st.write_field(md, 'State', st.new_list([]))
+            st.write_field(r, 'MdState', md)
+            return r
+
+        def reply(ex_, st, args, kwargs):
+            st.ghost['c:response'] = args[1]
+            return st.alloc('CreatedMessage')
+        d = {'*.from_node': Pure(from_node, name='GetMdState.from_node -> parsed request (HandleRef: list of str; C05)'),
+             '*.GetMdStateResponse': Pure(response, name='GetMdStateResponse(): empty MdState.State list'),
+             '*.set_mdib_version_group': Pure(lambda e, s, a, k: NONE, name='response.set_mdib_version_group (C07)'),
+             '*.mk_reply_soap_message': Pure(reply, name='msg_factory.mk_reply_soap_message(request, response)')}
+        d.update(self.lookup_summaries('self._mdib'))
+        return d
+
+    def _isobj(self, x):
+        return z3.And(Val.is_ref(x), Val.oid(x) > 0, Val.oid(x) < FRESH_BASE)
+
+    def loops(self, ex):
+        ids = ex.ctx.builtin_class_ids
+
+        def frame(st):
+            L, C = st.get_arr('L'), st.get_arr('C')
+            return z3.And(z3.Select(L, self.s_list.e) == self.S, z3.Select(L, self.cs_list.e) == self.CS,
+                          z3.Select(L, self.req_list.e) == self.req)
+
+        def collect_inv(ex_, st, env):
+            sc = ex_.concrete_kind(st, st.locals['state_containers'], ('ref',))
+            L = st.list_seq(sc)
+            x = z3.Const('x!inv', Val)
+            return {'collected_are_the_selected': z3.ForAll([x], mem(L, x) == self.sel(env['_k'], x)),
+                    'collected_are_objects': z3.ForAll([x], z3.Implies(mem(L, x), self._isobj(x))),
+                    'tables_untouched': frame(st)}
+
+        def dedupe_inv(ex_, st, env):
+            uniq = ex_.concrete_kind(st, st.locals['unique_state_containers'], ('ref',))
+            seen = ex_.concrete_kind(st, st.locals['seen_ids'], ('ref',))
+            src = ex_.concrete_kind(st, st.locals['state_containers'], ('ref',))
+            U = st.list_seq(uniq)
+            seen_set = z3.Select(st.get_arr('S'), seen.e)
+            x = z3.Const('x!dd', Val)
+            return {'unique_list_holds_the_consumed_prefix': z3.ForAll([x], mem(U, x) == mem(env['_prefix'], x)),
+                    'seen_ids_are_the_ids_of_the_unique_list':
+                        z3.ForAll([x], z3.Implies(self._isobj(x), z3.Select(seen_set, Val.int(Val.oid(x))) == mem(U, x))),
+                    'unique_list_has_no_duplicates': self.nd(U),
+                    'source_list_untouched': z3.And(st.list_seq(src) == env['_seq'], frame(st)),
+                    'containers': z3.And(z3.Select(st.get_arr('C'), seen.e) == ids['set'],
+                                         z3.Select(st.get_arr('C'), uniq.e) == ids['list'])}
+        hv = ['L', 'S', 'SN']
+        return {0: LoopSpec(inv=collect_inv, havoc_heap=hv), 1: LoopSpec(inv=collect_inv, havoc_heap=hv),
+                2: LoopSpec(inv=dedupe_inv, havoc_heap=hv, prefix=True)}
+
+    def post(self, ex, st0, st, outcome, b):
+        if outcome[0] == 'exc':
+            ex.oblige(st, 'never_raises', z3.BoolVal(False), info={'exc': repr(outcome[1])})
+            return
+        resp = st.ghost.get('c:response')
+        if resp is None:
+            ex.oblige(st, 'response_is_built', z3.BoolVal(False))
+            return
+        resp = ex.concrete_kind(st, resp, ('ref',))
+        md = ex.concrete_kind(st, st.read_field(resp, 'MdState'), ('ref',))
+        lst = ex.concrete_kind(st, st.read_field(md, 'State'), ('ref',))
+        R = st.list_seq(lst)
+        x = z3.Const('x!post', Val)
+        n = z3.Length(self.req)
+        everything = z3.Or(mem(self.S, x), z3.And(self.ctx_in.e, mem(self.CS, x)))
+        ex.oblige(st, 'response_states_are_exactly_the_selected_states',
+                  z3.ForAll([x], mem(R, x) == z3.If(n == 0, everything, self.sel(n, x))))
+        ex.oblige(st, 'every_state_at_most_once', self.nd(R))
+        ex.oblige(st, 'tables_untouched', z3.And(st.list_seq(self.s_list) == self.S, st.list_seq(self.cs_list) == self.CS))
+
+
+@register
+class GetContextStatesSelection(FnCheck, _Tables):
+    id = 'C20.get_context_states_selection'
+    prop = 'C20'
+    target = f'{CS_}:ContextService._on_get_context_states'
+    doc = ('GetContextStates: the context states put into the response are exactly those selected by the requested '
+           'handle list - empty list: all context states; otherwise the union over the requested handles of {the '
+           'context state with that handle}, {the context states of the descriptor with that handle} and, for the '
+           'handle of an MDS descriptor, {the context states whose source MDS is that MDS}; unknown handles contribute '
+           'nothing; every state occurs at most once (the response list is the value list of a mapping keyed by the '
+           "states' own, unique handles)")
+    trusted = ('table lookups return what a scan returns (C11) - assumed as callee contracts here',
+               'state.source_mds is a pure attribute', 'QName equality is value equality of opaque names')
+    feasibility_timeout_ms = 400
+    feasibility_ematch_only = True
+    seq_membership_facts = True
+
+    def setup(self, b):
+        st = b.st
+        self.declare_tables(b, with_states=False)
+        self.F_src = st.get_arr('f:source_mds')
+        self.F_nodetype = st.get_arr('f:NODETYPE')
+        self.has_d = z3.Function('descriptor_handle_known', Val, BoolS)     # unique index descriptions.handle
+        self.desc = z3.Function('descriptor_by_handle', Val, Val)
+        self.mds_qname = b.any('pm:MdsDescriptor')
+        st.assume(Val.is_ref(self.mds_qname.e))       # a QName object (not a number: == is value equality of names)
+        h, x = z3.Const('h!d', Val), z3.Const('x!d', Val)
+        cid_descr = b.ex.ctx.class_id('DescriptorContainer')
+        st.assume(z3.ForAll([h], z3.Implies(self.has_d(h), z3.And(
+            Val.is_ref(self.desc(h)), Val.oid(self.desc(h)) > 0, Val.oid(self.desc(h)) < FRESH_BASE,
+            z3.Select(st.get_arr('C'), Val.oid(self.desc(h))) == cid_descr, self.hd(self.desc(h)) == h))))
+        # BICEPS structure: a handle is not both a context-state handle and a descriptor handle; a descriptor that owns
+        # context states is a context descriptor, not an MDS
+        st.assume(z3.ForAll([h], z3.Not(z3.And(self.has_d(h), self.has_ch(h)))))
+        st.assume(z3.ForAll([x], z3.Implies(mem(self.CS, x), z3.Not(self.is_mds(self.dh(x))))))
+        # context states are plain objects (truthy), keyed by string handles
+        cid_state = b.ex.ctx.class_id('ContextStateContainer')
+        st.assume(z3.ForAll([x], z3.Implies(mem(self.CS, x), z3.And(
+            z3.Select(st.get_arr('C'), Val.oid(x)) == cid_state, Val.is_str(self.hd(x))))))
+        # C11: the table holds every object once
+        i, j = z3.Int('i!cs'), z3.Int('j!cs')
+        st.assume(z3.ForAll([i, j], z3.Implies(z3.And(0 <= i, i < j, j < z3.Length(self.CS)), self.CS[i] != self.CS[j])))
+        pm_names = b.obj('pm_names', MdsDescriptor=self.mds_qname)
+        dm = b.obj('data_model', pm_names=pm_names)
+        defs = b.obj('sdc_definitions', data_model=dm)
+        descr_tab = b.obj('descriptions_table')
+        b.set(self.mdib, 'descriptions', descr_tab)
+        slf = b.obj('self', cls=(CS_, 'ContextService'), _mdib=self.mdib, _sdc_definitions=defs)
+        b.distinct(slf, defs, dm, pm_names, descr_tab, self.mdib)
+
+        def match(x, hh):
+            return z3.And(mem(self.CS, x), z3.Or(self.hd(x) == hh, self.dh(x) == hh,
+                                                 z3.And(self.is_mds(hh), self.src(x) == hh)))
+        self.match = match
+        self.sel, ax = self.selection(match)
+        for a in ax:
+            st.assume(a)
+        return slf, [b.obj('request_data')], {}
+
+    def src(self, x):
+        return z3.Select(self.F_src, Val.oid(x))
+
+    def is_mds(self, h):
+        return z3.And(self.has_d(h), z3.Select(self.F_nodetype, Val.oid(self.desc(h))) == self.mds_qname.e)
+
+    def callees(self, ex):
+        def from_node(ex_, st, args, kwargs):
+            return self.request
+
+        def response(ex_, st, args, kwargs):
+            r = st.alloc('GetContextStatesResponse')
+            st.write_field(r, 'ContextState', st.new_list([]))
+            return r
+
+        def reply(ex_, st, args, kwargs):
+            st.ghost['c:response'] = args[1]
+            return st.alloc('CreatedMessage')
+
+        def get_one_descr(ex_, st, args, kwargs):
+            h = st.box(args[0])
+            allow_none = kwargs.get('allow_none')
+            miss = st.fork()
+            miss.assume(z3.Not(self.has_d(h)))
+            st.assume(self.has_d(h))
+            hit = (st, vany(self.desc(h)))
+            if allow_none is not None and z3.is_true(z3.simplify(truthy(allow_none, st))):
+                return [(miss, NONE), hit]
+            return [(miss, Raise(ex_.mk_exc('KeyError', 'get_one'))), hit]
+        d = {'*.from_node': Pure(from_node, name='GetContextStates.from_node -> parsed request (HandleRef: list of str; C05)'),
+             '*.GetContextStatesResponse': Pure(response, name='GetContextStatesResponse(): empty ContextState list'),
+             '*.set_mdib_version_group': Pure(lambda e, s, a, k: NONE, name='response.set_mdib_version_group (C07)'),
+             '*.mk_reply_soap_message': Pure(reply, name='msg_factory.mk_reply_soap_message(request, response)'),
+             'self._mdib.descriptions.handle.get_one':
+                 Pure(get_one_descr, name='descriptions.handle.get_one: unique index lookup (C11 invariant)')}
+        d.update(self.lookup_summaries('self._mdib'))
+        return d
+
+    def _in_d(self, st, d, x):
+        dk, dv = z3.Select(st.get_arr('DK'), d), z3.Select(st.get_arr('DV'), d)
+        return z3.And(z3.Select(dk, self.hd(x)), z3.Select(dv, self.hd(x)) == x)
+
+    def _wf(self, st, d):
+        dk, dv = z3.Select(st.get_arr('DK'), d), z3.Select(st.get_arr('DV'), d)
+        key = z3.Const('key!wf', Val)
+        return z3.ForAll([key], z3.Implies(z3.Select(dk, key), z3.And(mem(self.CS, z3.Select(dv, key)),
+                                                                     self.hd(z3.Select(dv, key)) == key)))
+
+    def loops(self, ex):
+        ids = ex.ctx.builtin_class_ids
+
+        def frame(st):
+            L = st.get_arr('L')
+            return z3.And(z3.Select(L, self.cs_list.e) == self.CS, z3.Select(L, self.req_list.e) == self.req)
+
+        def lookup_of(ex_, st):
+            return ex_.concrete_kind(st, st.locals['context_state_containers_lookup'], ('ref',))
+
+        def outer_inv(ex_, st, env):
+            d = lookup_of(ex_, st)
+            x = z3.Const('x!oi', Val)
+            return {'lookup_holds_exactly_the_selected': z3.ForAll([x], z3.Implies(mem(self.CS, x),
+                                                                              self._in_d(st, d.e, x) == self.sel(env['_k'], x))),
+                    'lookup_maps_handles_to_their_context_states': self._wf(st, d.e),
+                    'selected_are_context_states': z3.ForAll([x], z3.Implies(self.sel(env['_k'], x), mem(self.CS, x))),
+                    'tables_untouched': frame(st),
+                    'lookup_is_a_dict': z3.And(z3.Select(st.get_arr('C'), d.e) == ids['dict'],
+                                               z3.Select(st.get_arr('DN'), d.e) >= 0)}
+
+        def inner_inv(ex_, st, env):
+            d = lookup_of(ex_, st)
+            outer_k = st.ghost.get('c:k0')
+            if outer_k is None:
+                raise Unsupported('inner loop reached without the outer loop head')
+            x = z3.Const('x!ii', Val)
+            tmp = env['_seq']
+            handle = st.box(st.locals['handle'])
+            return {'lookup_holds_selected_plus_consumed': z3.ForAll([x], z3.Implies(mem(self.CS, x), self._in_d(st, d.e, x) == z3.Or(
+                        self.sel(outer_k, x), mem(env['_prefix'], x)))),
+                    'lookup_maps_handles_to_their_context_states': self._wf(st, d.e),
+                    'selected_are_context_states': z3.ForAll([x], z3.Implies(self.sel(outer_k, x), mem(self.CS, x))),
+                    'tables_untouched': frame(st),
+                    'lookup_is_a_dict': z3.And(z3.Select(st.get_arr('C'), d.e) == ids['dict'],
+                                               z3.Select(st.get_arr('DN'), d.e) >= 0),
+                    'iterated_states_are_the_matches_of_this_handle':
+                        z3.And(handle == self.req[outer_k], outer_k >= 0, outer_k < z3.Length(self.req),
+                               z3.ForAll([x], mem(tmp, x) == self.match(x, handle)))}
+        hv = ['DK', 'DV', 'DN', 'L']
+        return {0: LoopSpec(inv=outer_inv, havoc_heap=hv), 1: LoopSpec(inv=inner_inv, havoc_heap=hv, prefix=True)}
+
+    def post(self, ex, st0, st, outcome, b):
+        if outcome[0] == 'exc':
+            ex.oblige(st, 'never_raises', z3.BoolVal(False), info={'exc': repr(outcome[1])})
+            return
+        resp = st.ghost.get('c:response')
+        if resp is None:
+            ex.oblige(st, 'response_is_built', z3.BoolVal(False))
+            return
+        resp = ex.concrete_kind(st, resp, ('ref',))
+        lst = ex.concrete_kind(st, st.read_field(resp, 'ContextState'), ('ref',))
+        R = st.list_seq(lst)
+        x = z3.Const('x!post', Val)
+        n = z3.Length(self.req)
+        ex.oblige(st, 'response_states_are_exactly_the_selected_context_states',
+                  z3.ForAll([x], mem(R, x) == z3.If(n == 0, mem(self.CS, x), self.sel(n, x))))
+        i, j = z3.Int('i!nd'), z3.Int('j!nd')
+        ex.oblige(st, 'every_state_at_most_once',
+                  z3.ForAll([i, j], z3.Implies(z3.And(0 <= i, i < j, j < z3.Length(R)), R[i] != R[j])))
+        ex.oblige(st, 'tables_untouched', st.list_seq(self.cs_list) == self.CS)
